@@ -38,6 +38,7 @@ type Case struct {
 	Mode   string            `json:"mode"`   // set | count
 	Append bool              `json:"append"` // -coverappend onto an existing profile from an earlier identical run
 	Stale  bool              `json:"stale"`  // (without -coverappend) a longer profile of some earlier, different run already exists at the path: it must be replaced, not overwritten in place
+	Cut    int               `json:"cut,omitempty"` // > 0: one program file is additionally cut in two after a line that opens a body ("... {"), so a top-level item (and the blocks nested in it) continues in the next -f file
 }
 
 func genCase(t *rapid.T) Case {
@@ -54,7 +55,58 @@ func genCase(t *rapid.T) Case {
 	if rapid.IntRange(0, 2).Draw(t, "args") == 0 {
 		c.Args = []string{"r0"}
 	}
+	if rapid.IntRange(0, 2).Draw(t, "cut?") == 0 {
+		c.Cut = rapid.IntRange(1, 1000).Draw(t, "cut")
+	}
 	return c
+}
+
+// cutFile splits one of the program texts after a line that opens the body of a rule, function or compound
+// statement.  No basic block has statements on both sides of such a cut (a block ends with the header of the
+// compound statement; "do {" and a bare "{" are not cut after, because goawk ends those blocks at the closing
+// line), so every reported block must still lie in one file.  Statement positions are moved accordingly.
+func cutFile(texts []string, infos map[int]stmtInfo, cut int) ([]string, bool) {
+	if cut <= 0 || len(texts) == 0 {
+		return texts, false
+	}
+	fi := cut % len(texts)
+	lines := strings.SplitAfter(texts[fi], "\n")
+	var cands []int
+	var open []bool // stack of open bodies: true = a do-while or bare block (its basic block reaches to the closing line)
+	for i, l := range lines {
+		t := strings.TrimSpace(l)
+		if strings.HasPrefix(t, "}") && len(open) > 0 {
+			open = open[:len(open)-1]
+		}
+		if strings.HasSuffix(t, "{") {
+			long := t == "{" || strings.HasPrefix(t, "do")
+			open = append(open, long)
+			inLong := false
+			for _, o := range open {
+				inLong = inLong || o
+			}
+			if !inLong && i+1 < len(lines) && strings.TrimSpace(strings.Join(lines[i+1:], "")) != "" {
+				cands = append(cands, i+1) // cut after line i+1 (1-based)
+			}
+		}
+	}
+	if len(cands) == 0 {
+		return texts, false
+	}
+	at := cands[(cut/len(texts))%len(cands)]
+	out := append([]string{}, texts[:fi]...)
+	out = append(out, strings.Join(lines[:at], ""), strings.Join(lines[at:], ""))
+	out = append(out, texts[fi+1:]...)
+	for id, in := range infos {
+		switch {
+		case in.file == fi && in.line > at:
+			in.file, in.line = fi+1, in.line-at
+		case in.file > fi:
+			in.file++
+		}
+		infos[id] = in
+	}
+	return out, true
 }
 
 // splitProgram distributes the top-level items over files, keeping their relative order per kind.
@@ -266,6 +318,7 @@ func run(x *h.Ctx, c Case) string {
 		texts = append(texts, awk.NewRenderer(awk.Minimal).Program(part))
 		collect(part, i, infos)
 	}
+	texts, wasCut := cutFile(texts, infos, c.Cut)
 	joined := strings.Join(texts, "")
 	gp, err := parser.ParseProgram([]byte(joined), nil)
 	if err != nil {
@@ -491,6 +544,9 @@ func run(x *h.Ctx, c Case) string {
 		x.Class("append")
 	}
 	x.Class(fmt.Sprintf("files-%d", len(texts)))
+	if wasCut {
+		x.Class("item-continues-in-next-file")
+	}
 	if len(blocks) >= 3 && early {
 		x.Nontrivial("")
 	}
